@@ -136,7 +136,7 @@ theorem B20_statistics (o : Ops K) (i : In K) :
     B20_residual o i = o.sqrt (o.sum ((B20 o i - B20_mean o i) * (B20 o i - B20_mean o i) * i.d_l_d_phi) * (1 / o.sum i.d_l_d_phi)) / i.B0 ∧
     B20_variation o i = o.amax (B20 o i) - o.amin (B20 o i) ∧
     B20_anomaly o i = B20 o i - B20_mean o i := by
-  simp only [B20_mean, B20_residual, B20_variation, B20_anomaly, qsc_local, Nat.cast_one, and_self]
+  refine ⟨?_, ?_, ?_, ?_⟩ <;> simp only [B20_mean, B20_residual, B20_variation, B20_anomaly, qsc_local, Nat.cast_one] <;> ring_congr
 
 end field
 
